@@ -215,7 +215,7 @@ func head(b []byte) []byte {
 
 func TestC03(t *testing.T) {
 	c := rt.Get()
-	n := c.N(3000, 80000)
+	n := c.N(12000, 240000)
 	for i := 0; i < n; i++ {
 		if !c.Mine("stream", i) {
 			continue
